@@ -97,8 +97,8 @@ pub trait Prop: Sync {
 
 /// Socket set-up of the harnesses that drive a live session (bind / connect / accept on 127.0.0.1): under a loaded
 /// machine the ephemeral ports run out for a moment (thousands of sockets in TIME_WAIT) and the call fails with
-/// EADDRNOTAVAIL / EADDRINUSE; that is the harness's environment, not the implementation, so it is retried (5 s in
-/// all) instead of surfacing as a `panic` reply that the oracle would read as a panic of the code under test (seen
+/// EADDRNOTAVAIL / EADDRINUSE; that is the harness's environment, not the implementation, so it is retried (90 s in
+/// all: a socket stays in TIME_WAIT for 60 s) instead of surfacing as a `panic` reply that the oracle would read as a panic of the code under test (seen
 /// once: `live-delay ...` answered `panic` in a full run and never again when replayed).
 #[macro_export]
 macro_rules! retry_io {
@@ -109,8 +109,8 @@ macro_rules! retry_io {
                 Ok(v) => break v,
                 Err(e) => {
                     n += 1;
-                    if n > 200 { panic!("harness: socket set-up keeps failing: {}", e); }
-                    std::thread::sleep(std::time::Duration::from_millis(25));
+                    if n > 1800 { panic!("harness: socket set-up keeps failing: {}", e); }
+                    std::thread::sleep(std::time::Duration::from_millis(50));
                 }
             }
         }
